@@ -8,7 +8,7 @@ CHECKS = {
  "C01": dict(
   technique="source-level symbolic execution of the nom grammar (syn dump -> PEG with nom semantics -> QF_BV) + SMT (z3), one query per exact input length; counterexamples replayed on the real build",
   category="model_checking",
-  text="For every string of <= N Unicode scalar values (N=14 quick / 17 thorough) and every instantiation of the template families (DTD declarations, XML declaration, attributes, PI/comment/CDATA) z3 decides: the strict reference language (XML 1.0 5e + QName syntax, supported profile) is contained in {x : xml_parser::document consumes x and the info-level reference checks pass}. The encoding is regenerated from /repo on each run; any model is replayed through XmlDocument::from_raw before it is reported.",
+  text="For every string of <= N Unicode scalar values (N=14 quick / 17 thorough) and every instantiation of the template families (DTD declarations, XML declaration, attributes, PI/comment/CDATA) z3 decides: the strict reference language (XML 1.0 5e + QName syntax, supported profile) is contained in {x : xml_parser::document consumes x and the info-level reference checks pass}. The keyword captures of the grammar (12 keyword -> variant sites, standalone = 'yes', decimal / hexadecimal radix of character references) are compared with the productions. The encoding is regenerated from /repo on each run; any model is replayed through XmlDocument::from_raw before it is reported.",
   note="Bounded: nothing is claimed for longer documents outside the templates. Grammar layer only: item construction (XmlDocument::new beyond reference checks), entity expansion, DOM views and the captures->infoset mapping are outside. Trusted: nom combinator models (validated against the real parser on the corpus + random mutations on every run), reference grammar (self-tested on its corpus, expat second opinion on ASCII witnesses).",
   design="3/C01"),
  "C02": dict(
